@@ -72,6 +72,9 @@ pub enum Op {
     Codon { amino: String },
     /// `STANDARD.try_to_amino(syms)` with a length other than three
     BadLen { syms: String, pres: Pres },
+    /// something else the program does with the library on the same thread (see noise.rs);
+    /// executed, logged, never judged
+    Noise { kind: String, arg: u64 },
 }
 
 impl Op {
@@ -80,6 +83,7 @@ impl Op {
             Op::Amino { codon, .. } => format!("amino({codon})"),
             Op::Codon { amino } => format!("codon({amino})"),
             Op::BadLen { syms, .. } => format!("badlen({syms})"),
+            Op::Noise { kind, arg } => format!("noise({kind},{arg:x})"),
         }
     }
     pub fn describe(&self) -> String {
@@ -87,6 +91,7 @@ impl Op {
             Op::Amino { codon, pres } => format!("amino({codon}) {}", pres.describe()),
             Op::Codon { amino } => format!("codon({amino})"),
             Op::BadLen { syms, pres } => format!("badlen({syms}) {}", pres.describe()),
+            Op::Noise { kind, arg } => format!("noise({kind},{arg:x})"),
         }
     }
 }
@@ -245,6 +250,10 @@ pub fn generate(run_seed: u64) -> Config {
     // by almost-the-codon) meets the inputs most likely to collide: the same bits at another
     // length, one symbol widened or narrowed, the same codon under another presentation, the
     // reverse lookup of the answer
+    let n_noise = ops.len() / 24;
+    for _ in 0..n_noise {
+        ops.push(Op::Noise { kind: (*rng.pick(crate::noise::KINDS)).to_string(), arg: rng.next_u64() });
+    }
     let mut blocks: Vec<Vec<Op>> = ops.into_iter().map(|o| vec![o]).collect();
     let n_bursts = if mode == "sample" { 96 } else { 192 };
     for _ in 0..n_bursts {
@@ -256,7 +265,8 @@ pub fn generate(run_seed: u64) -> Config {
         let mut burst = vec![Op::Amino { codon: base.clone(), pres: gen_pres(&mut rng, 3) }];
         for _ in 0..rng.range(1, 3) {
             let b = base.as_bytes();
-            let related = match rng.below(7) {
+            let related = match rng.below(9) {
+                7 | 8 => Op::Noise { kind: (*rng.pick(crate::noise::KINDS)).to_string(), arg: rng.next_u64() },
                 0 => {
                     // same leading bits, one more symbol (gap = all-zero bits)
                     let ext = format!("{base}{}", if rng.chance(2, 3) { '-' } else { IUPAC_LETTERS[rng.below(16)] as char });
@@ -592,6 +602,7 @@ pub fn execute(op: &Op) -> String {
     let r = catch_unwind(AssertUnwindSafe(|| match op {
         Op::Amino { codon, pres } => present(codon, pres, |s| classify(&STANDARD.try_to_amino(s))),
         Op::BadLen { syms, pres } => present(syms, pres, |s| classify(&STANDARD.try_to_amino(s))),
+        Op::Noise { kind, arg } => format!("noise:{:x}", crate::noise::run(kind, *arg)),
         Op::Codon { amino } => {
             let a = Amino::try_from_ascii(amino.as_bytes()[0]).expect("harness: amino letter");
             let r = STANDARD.try_to_codon(a);
@@ -613,6 +624,8 @@ pub fn execute(op: &Op) -> String {
 /// What the property demands for `op`; `Err(class, expected-text)` when `got` departs from it.
 pub fn judge(op: &Op, got: &str) -> Result<(), (String, String)> {
     match op {
+        // noise belongs to other properties: whatever it does (even a panic) is not judged here
+        Op::Noise { .. } => Ok(()),
         Op::Amino { codon, .. } => {
             let b = codon.as_bytes();
             match oracle::expect_amino(&[b[0], b[1], b[2]]) {
@@ -789,6 +802,8 @@ pub struct RunStats {
     pub client_threads_spawned: usize,
     pub client_threads_retired: usize,
     pub far_offset_windows: usize,
+    pub noise_ops: usize,
+    pub noise_kinds: BTreeMap<String, usize>,
 }
 
 #[derive(Serialize, Deserialize, Clone, Debug)]
@@ -832,8 +847,11 @@ pub fn run(cfg: &Config) -> RunResult {
             Op::Amino { .. } => "amino",
             Op::Codon { .. } => "codon",
             Op::BadLen { .. } => "badlen",
+            Op::Noise { .. } => "noise",
         };
-        cells.insert(format!("{kind}:fwd={}:inv={}", u8::from(fwd_warm), u8::from(inv_warm)));
+        if kind != "noise" {
+            cells.insert(format!("{kind}:fwd={}:inv={}", u8::from(fwd_warm), u8::from(inv_warm)));
+        }
         if i == 0 {
             stats.first_op = step.op.describe();
         }
@@ -862,6 +880,13 @@ pub fn run(cfg: &Config) -> RunResult {
                 stats.badlen_ops += 1;
                 note_pres(&mut stats, pres, syms.len());
             }
+            Op::Noise { kind, .. } => {
+                stats.noise_ops += 1;
+                *stats.noise_kinds.entry(kind.clone()).or_insert(0) += 1;
+                if kind == "other-table" || kind == "dna-table" {
+                    // (these touch neither lazily initialised table)
+                }
+            }
         }
 
         digest.feed_u64(i as u64);
@@ -878,6 +903,7 @@ pub fn run(cfg: &Config) -> RunResult {
         // have equal results at every position of the history
         let constrained = match &step.op {
             Op::Amino { codon, .. } => !codon.contains('-'),
+            Op::Noise { .. } => false,
             _ => true,
         };
         if constrained {
@@ -945,6 +971,7 @@ fn note_pres(stats: &mut RunStats, pres: &Pres, n: usize) {
 // scheduler decides every preemption and its race detector watches every access)
 
 pub mod miri_scenario {
+    //! Also compiled into the shuttle engine (Engine S), where `crate::rt::thread` is shuttle's.
     use super::*;
     use std::sync::atomic::{AtomicUsize, Ordering};
 
@@ -1065,7 +1092,7 @@ pub mod miri_scenario {
     pub fn main(seed: u64, threads_override: Option<usize>, ops_override: Option<usize>) -> i32 {
         std::panic::set_hook(Box::new(|_| {}));
         let plans = plan(seed, threads_override, ops_override);
-        println!("SIM-START c14-miri seed={seed} threads={}", plans.len());
+        println!("SIM-START c14-conc seed={seed} threads={}", plans.len());
         for (i, p) in plans.iter().enumerate() {
             let d: Vec<String> = p.ops.iter().map(Op::describe).collect();
             println!("SIM-PLAN t{i} role={} ops=[{}]", p.role, d.join("; "));
@@ -1073,7 +1100,7 @@ pub mod miri_scenario {
         let mut handles = Vec::new();
         for (ti, p) in plans.iter().enumerate() {
             let ops = p.ops.clone();
-            handles.push(std::thread::spawn(move || {
+            handles.push(crate::rt::thread::spawn(move || {
                 let mut evs = Vec::new();
                 for (idx, op) in ops.into_iter().enumerate() {
                     let start = STAMP.fetch_add(1, Ordering::Relaxed);
